@@ -44,3 +44,29 @@ fn c04_decode_length_rule() {
     std::mem::forget(r);
     std::mem::forget(buf);
 }
+
+/// `Codec::decode` on a frame the packet reader cannot decode (type number 200 belongs to no kind;
+/// the rest of the frame is symbolic) followed by a symbolic tail: an error is returned, exactly the
+/// announced frame is removed and the tail - the next packet - is left intact.
+macro_rules! decode_unknown {
+    ($name:ident, $mode:expr, $size:expr) => {
+        #[kani::proof]
+        #[kani::unwind(10)]
+        #[kani::stub(alloc::fmt::format, stub_format)]
+        fn $name() {
+            let b: [u8; 6] = kani::any();
+            let mut buf = BytesMut::with_capacity(16);
+            buf.extend_from_slice(&[$size, 200, b[0], b[1], b[2], b[3], b[4], b[5]]);
+            let codec = insim::net::Codec::new($mode);
+            let r = codec.decode(&mut buf);
+            let err = r.is_err();
+            std::mem::forget(r);
+            assert!(err, "C04:undecodable frame must yield a decode error");
+            assert!(buf.len() == 4, "C04:exactly the announced frame is removed");
+            assert!(buf[0] == b[2] && buf[1] == b[3] && buf[2] == b[4] && buf[3] == b[5], "C04:bytes after the frame are left intact");
+            std::mem::forget(buf);
+        }
+    };
+}
+decode_unknown!(c04_decode_unknown_type, Mode::Compressed, 1u8);
+decode_unknown!(c04_decode_unknown_type_uncompressed, Mode::Uncompressed, 4u8);
